@@ -61,6 +61,16 @@ def judge(rep, descs, cases, out) -> None:
                 rep.violate(f"C10/null-not-none/{sig}", f"null for a nullable property decodes as {n.get('py', n['dec'])}", d=d, observed=n, schema=codec.schema_of(d))
             elif not n.get("enc_present") or n.get("enc") is not None:
                 rep.violate(f"C10/none-not-null/{sig}", f"None is encoded as {json.dumps(n.get('enc'))} (present={n.get('enc_present')})", d=d, observed=n)
+        # a PRESENT value (also a falsy one: 0, "", False, {}, []) is neither absent nor null
+        for i, w in enumerate(codec.WIRESEQ):
+            if w in ("absent", "null") or not p["valid"][i] or w == "f10":
+                continue
+            r = rr[w]
+            if r["dec"] == "ok" and (r["py"] == "Unset" or not r.get("enc_present")):
+                rep.violate(f"C10/present-value-becomes-absent/{sig}/{w}", f"present value {json.dumps(codec.WIRE[w])} reads back as {r['py']} and is "
+                            f"{'not ' if not r.get('enc_present') else ''}transmitted", d=d, w=w, observed=r, schema=codec.schema_of(d))
+            elif r["dec"] == "ok" and r["py"] == "None":
+                rep.violate(f"C10/present-value-becomes-null/{sig}/{w}", f"present value {json.dumps(codec.WIRE[w])} reads back as None", d=d, w=w)
         # the three states are pairwise distinct Python values
         if not d["req"] and nullable and rr["absent"].get("py") == rr["null"].get("py"):
             rep.violate(f"C10/absent-null-conflated/{sig}", f"absent and null both read back as {rr['null'].get('py')}", d=d)
@@ -114,6 +124,52 @@ def spellings(rep, d) -> None:
                 rep.violate(f"C10/spelling/{k}/absent-not-unset", f"{k}: absent reads back as {rr['absent'].get('py')}", schema=props[k])
 
 
+def allof_required(rep, d) -> None:
+    """A property is a mandatory argument iff SOME allOf member (or the schema itself) requires it - wherever `required` is written."""
+    S = {"type": "string"}
+    R = lambda n: {"$ref": f"#/components/schemas/{n}"}
+    base = {"Base": {"type": "object", "required": ["id"], "properties": {"id": {"type": "integer"}, "email": S}}}
+    fam = {
+        # name: (schema, {property: expected mandatory})
+        "SameMember": ({"allOf": [R("Base"), {"type": "object", "required": ["n"], "properties": {"n": S}}]}, {"id": True, "email": False, "n": True}),
+        "LaterMember": ({"allOf": [R("Base"), {"type": "object", "properties": {"n": S, "m": S}}, {"type": "object", "required": ["n"]}]}, {"n": True, "m": False, "id": True}),
+        "EarlierMember": ({"allOf": [{"type": "object", "required": ["n"]}, {"type": "object", "properties": {"n": S, "m": S}}]}, {"n": True, "m": False}),
+        "TopLevelRequired": ({"required": ["n"], "allOf": [R("Base"), {"type": "object", "properties": {"n": S}}]}, {"n": True, "id": True, "email": False}),
+        "TopLevelProps": ({"type": "object", "properties": {"n": S, "m": S}, "allOf": [{"type": "object", "required": ["n"]}]}, {"n": True, "m": False}),
+        "RedeclaredOptional": ({"allOf": [R("Base"), {"type": "object", "properties": {"id": {"type": "integer"}}}]}, {"id": True, "email": False}),
+        "Plain": ({"type": "object", "required": ["a"], "properties": {"a": S, "b": S, "c": {"type": "string", "default": "x"}, "dflt": {"type": "integer", "default": 3}},
+                   }, {"a": True, "b": False, "c": False, "dflt": False}),
+        "RequiredWithDefault": ({"type": "object", "required": ["a", "b"], "properties": {"a": {"type": "string", "default": "x"}, "b": S}}, {"a": False, "b": True}),
+    }
+    doc = gen.mkdoc(schemas={**base, **{k: v[0] for k, v in fam.items()}})
+    g = gen.generate(doc, d / "ar")
+    if g["exc"] or g["rejected"] or g["diags"]:
+        rep.violate("C10/allof-family-not-generated", f"{g['exc'] or g['diags'][:2]}", doc=doc)
+        return
+    cases = []
+    for k, (schema, exp) in fam.items():
+        for prop in exp:
+            cases.append({"cls": k, "prop": prop, "wires": [], "construct_empty": False})
+    out = codec.run_sandbox(d, "ar", cases)
+    # run_sandbox keys results by class: collect meta per (class, prop) with a second pass
+    import subprocess
+    from ..common import VENV_PY
+    script = "import json,sys,inspect; sys.path.insert(0, %r); import ar.models as m; print(json.dumps({k: {n: (p.default is inspect.Parameter.empty) for n, p in inspect.signature(getattr(m, k)).parameters.items()} for k in %r}))" % (str(d), list(fam))
+    p = subprocess.run([VENV_PY, "-I", "-c", script], capture_output=True, text=True, timeout=120)
+    if p.returncode != 0:
+        rep.violate("C10/allof-family-import", p.stderr[-500:], doc=doc)
+        return
+    sigs = json.loads(p.stdout.strip().splitlines()[-1])
+    for k, (schema, exp) in fam.items():
+        for prop, mand in exp.items():
+            rep.count(1, ("allof-required", k, prop))
+            got = sigs[k].get(prop)
+            if got is None:
+                rep.violate(f"C10/allof-required/{k}/{prop}/missing", f"{k}.{prop} is not a constructor argument", schema=schema)
+            elif got != mand:
+                rep.violate(f"C10/allof-required/{k}/{prop}", f"{k}.{prop}: mandatory argument={got}, but required-by-some-member-and-no-default={mand}", schema=schema, signature=sigs[k])
+
+
 def run(rep) -> None:
     quick = rep.tier == "quick"
     d = scratch("c10-")
@@ -143,6 +199,7 @@ def run(rep) -> None:
         for t in post[0]["nonconforming"][:20]:
             rep.drifted(mode="codec-trace", obs=trace[t - 1])
         spellings(rep, d)
+        allof_required(rep, d)
         rep.sample({"descriptor": descs[3]["d"], "states": ["absent", "null", "present"]})
     finally:
         rmtree(d)
